@@ -4,6 +4,8 @@ import bisect
 import math
 from fractions import Fraction
 
+import numpy as np
+
 from pbt.harness import is_real
 
 EQUAL_SIZE = ("BinaryPartition", "DimensionBinaryPartition", "KaryPartition")
@@ -11,6 +13,20 @@ EQUAL_SIZE = ("BinaryPartition", "DimensionBinaryPartition", "KaryPartition")
 
 def F(v):
     return Fraction(float(v)) if not isinstance(v, int) else Fraction(v)
+
+
+def ex(v):
+    """Exact comparisons: NumPy compares an np.float64 with a large Python int by casting the int to
+    float64, Python compares float and int exactly - so NumPy scalars are converted to Python floats."""
+    if isinstance(v, bool) or isinstance(v, int):
+        return v
+    if isinstance(v, np.integer):
+        return int(v)
+    return float(v)
+
+
+def exbox(box):
+    return [[ex(iv[0]), ex(iv[1])] for iv in box]
 
 
 def box_ok(box, d):
@@ -34,6 +50,8 @@ def centre_ok(node):
     if not isinstance(cp, list) or len(cp) != len(box):
         return "c_point %r does not match the box dimension" % (cp,)
     for k, ((lo, hi), c) in enumerate(zip(box, cp)):
+        if is_real(lo) and is_real(hi) and is_real(c):
+            lo, hi, c = ex(lo), ex(hi), ex(c)
         if not is_real(c) or not math.isfinite(c):
             return "c_point[%d] = %r" % (k, c)
         if not lo <= c <= hi:
@@ -48,6 +66,8 @@ def centre_ok(node):
 def grid_tiles(parent_box, boxes, max_cells=200000):
     """Union of ``boxes`` == parent_box and interiors pairwise disjoint, decided on the
     grid induced by all boundaries.  Returns None, an error text, or 'skipped'."""
+    parent_box = exbox(parent_box)
+    boxes = [exbox(b) for b in boxes]
     d = len(parent_box)
     grids = []
     for k in range(d):
@@ -117,7 +137,7 @@ def grid_tiles(parent_box, boxes, max_cells=200000):
 
 def split_ok(cls_name, K, parent, children):
     """The whole per-split predicate of C02.  Returns None or a (clause, text) pair."""
-    pbox = parent.get_domain()
+    pbox = exbox(parent.get_domain()) if box_ok(parent.get_domain(), len(parent.get_domain())) is None else parent.get_domain()
     d = len(pbox)
     expect = K if cls_name in ("KaryPartition", "RandomKaryPartition") else (
         2 ** d if cls_name == "DimensionBinaryPartition" else 2)
@@ -129,6 +149,7 @@ def split_ok(cls_name, K, parent, children):
         msg = box_ok(b, d)
         if msg:
             return ("child-box", msg)
+        b = exbox(b)
         for k in range(d):
             if b[k][0] < pbox[k][0] or b[k][1] > pbox[k][1]:
                 return ("containment", "child %r not inside parent %r" % (b, pbox))
@@ -172,6 +193,8 @@ def leaves_tile(root_box, leaf_boxes, probes, max_cells=20000):
         return None, "grid"
     if msg != "skipped":
         return msg, "grid"
+    root_box = exbox(root_box)
+    leaf_boxes = [exbox(b) for b in leaf_boxes]
     d = len(root_box)
     for u in probes:
         p = [float(root_box[k][0]) + (float(root_box[k][1]) - float(root_box[k][0])) * u[k % len(u)] for k in range(d)]
